@@ -227,8 +227,15 @@ func (s *Server) Stop() error {
 		}
 		s.mu.Unlock()
 	})
+	// like http.Server.Shutdown: Serve has returned by now, but Stop goes on until the
+	// connections in flight have drained
+	time.Sleep(DrainTime)
+	Rec.Emit(Event{Ev: "stopped", G: s.Gen, K: s.K})
 	return nil
 }
+
+// DrainTime is how long a fake server's Stop keeps draining after its Serve loop returned.
+var DrainTime = 300 * time.Microsecond
 
 // Input renders the Casketfile of generation gen.
 func Input(gen, n int, fail string) casket.Input {
